@@ -259,7 +259,9 @@ def peak_tie(r):
     a rescaling that rounds differently."""
     S = r["E"].sum(axis=1)
     tol = (1e-9 if r["dtype"] == "float64" else 1e-5) * float(S.max() or 1.0)
-    if (np.abs(np.diff(S)) <= tol).any():
+    d = np.abs(np.diff(S))
+    nz = np.maximum(S[:-1], S[1:]) > 0  # two zero neighbours stay exactly zero under any scaling
+    if (d[nz] <= tol).any():
         return True
     pk = sorted((S[q] for q in range(1, len(S) - 1) if S[q - 1] < S[q] > S[q + 1]), reverse=True)
     return len(pk) >= 2 and pk[0] - pk[1] <= tol
